@@ -90,6 +90,7 @@ type runState struct {
 	facCalls         []int
 	cfgCalls         [][2]int
 	gcCalls          int
+	gcTries          int
 	active           int
 	launches         int
 	waitSeen         bool
@@ -476,10 +477,17 @@ func (w *world) begin(rs *runState) {
 		fs[0] = true
 	}
 	w.op(fmt.Sprintf("begin %d", rs.id), fmt.Sprintf("begin f=%s s=%d c=%s", csv(sortedKeys(fs)), rs.setStatus, pairsStr(rs.cfgCalls)))
-	// every factory of the manager is asked exactly once per run
+	// every factory of the manager is asked exactly once per run, and no other
 	seen := map[int]int{}
 	for _, f := range rs.facCalls {
 		seen[f]++
+		mine := false
+		for _, ref := range rs.view.facs {
+			mine = mine || (!ref.static && ref.ext == f)
+		}
+		if !mine {
+			w.fail("", fmt.Sprintf("factory-outside-the-managers-map-asked run=%d factory=%d", rs.id, f))
+		}
 	}
 	for n, ref := range rs.view.facs {
 		if !ref.static && seen[ref.ext] != 1 {
@@ -521,6 +529,7 @@ func (l *lockSrc) TryLock(ctx context.Context, key string) (context.Context, con
 		if !rs.drainedSeen {
 			w.fail("", fmt.Sprintf("gc-lock-taken-before-the-final-wait run=%d", rr))
 		}
+		rs.gcTries++
 		out := "busy"
 		if w.lastTry == 1 {
 			out = "acq"
@@ -720,8 +729,12 @@ func (w *world) ret(rs *runState, err error, panicked bool) {
 	if want := w.sc.stubSets(rs.view); want != rs.setStatus {
 		w.fail("", fmt.Sprintf("stub-updater-set-status-calls run=%d want=%d got=%d", rs.id, want, rs.setStatus))
 	}
-	if rs.view.retention == 0 && rs.gcCalls > 0 {
+	if rs.view.retention == 0 && (rs.gcCalls > 0 || rs.gcTries > 0) {
 		w.fail("", fmt.Sprintf("gc-ran-without-retention run=%d", rs.id))
+	}
+	// garbage collection is attempted at the end of every run (failed updaters or not, cancelled or not)
+	if rs.view.retention != 0 && rs.gcTries != 1 && !panicked {
+		w.fail("", fmt.Sprintf("gc-section-entered-%d-times run=%d retention=%d failed-updaters=%d", rs.gcTries, rs.id, rs.view.retention, len(names)))
 	}
 	// every Configurable updater of a constructed, non-stub set is configured exactly once per run
 	cfgd := map[int]int{}
@@ -1285,6 +1298,8 @@ func runScenario(r *hx.Run, seed uint64, idx int, sc *scenario) bool {
 				}
 				if !st.cancelled {
 					w.fail("", fmt.Sprintf("Start-returned-although-its-context-is-live start=%d err=%v", st.id, err))
+				} else if !errors.Is(err, context.Canceled) {
+					w.fail("", fmt.Sprintf("Start-did-not-return-the-context-error start=%d err=%v", st.id, err))
 				}
 				w.op(fmt.Sprintf("sret %d", st.id), res)
 				w.r.Count(fmt.Sprintf("start:returned-after-runs=%d", min(st.k, 4)))
